@@ -367,10 +367,24 @@ def check_rdkit_default(mi, nmodels):
     src = struc.stack([atoms] * nmodels)
     for k in range(nmodels):
         src.coord[k] += 0.125 * k
+    before = src.copy()
     with warnings.catch_warnings():
         warnings.simplefilter("ignore")
         mol = rd.to_mol(src)
         back = rd.from_mol(mol)
+        # conversion with every option leaves the input molecule as it was; kekulize=True gives the same molecule with
+        # its aromatic bonds written as single / double
+        for kw in (dict(kekulize=True), dict(use_dative_bonds=True), dict(explicit_hydrogen=True)):
+            mk = rd.to_mol(src, **kw)
+            if src != before or src.bonds.as_set() != before.bonds.as_set():
+                return f"{m}: to_mol({kw}) changed its input (bonds now {sorted(src.bonds.as_set())})"
+            if kw == dict(kekulize=True):
+                bk = rd.from_mol(mk)
+                plain = before.bonds.copy()
+                plain.remove_aromaticity()
+                if bk.element.tolist() != atoms.element.tolist() or {(i, j) for i, j, _ in bk.bonds.as_set()} != {(i, j) for i, j, _ in plain.as_set()} \
+                        or sorted(t for _, _, t in bk.bonds.as_set()) != sorted(t for _, _, t in plain.as_set()):
+                    return f"{m}: to_mol(kekulize=True) -> from_mol gives bonds {sorted(bk.bonds.as_set())}"
     if mol.GetNumConformers() != nmodels or back.stack_depth() != nmodels:
         return f"{m}: {mol.GetNumConformers()} conformers, {back.stack_depth()} models for {nmodels} models"
     if back.element.tolist() != atoms.element.tolist() or back.charge.tolist() != atoms.charge.tolist():
